@@ -12,12 +12,14 @@ import (
 // C16.R5 — EM wiring of the mixture and HMM estimators. The generic EM / Baum-Welch drivers call, per iteration, Swap,
 // EvaluateLogPdf, Step, Emissions and the hooks (with GetBasicMixture/GetBasicHmm). Step writes model A from model B
 // (first and second argument of the generic step). For the iteration to be an EM iteration:
-//   (a) Step passes two different model fields A and B, and calls the step on A;
-//   (b) EvaluateLogPdf evaluates the emission densities of B (the model the E-step reads);
-//   (c) Emissions, job c: estimator c gets the responsibilities gamma[c], is warm-started from B's component c and its
-//       result is installed into A's component c — every index in the job is the job index;
-//   (d) Swap makes the previous A the next B (the next iteration starts from the last result);
-//   (e) the model handed to hooks is A.
+//
+//	(a) Step passes two different model fields A and B, and calls the step on A;
+//	(b) EvaluateLogPdf evaluates the emission densities of B (the model the E-step reads);
+//	(c) Emissions, job c: estimator c gets the responsibilities gamma[c], is warm-started from B's component c and its
+//	    result is installed into A's component c — every index in the job is the job index;
+//	(d) Swap makes the previous A the next B (the next iteration starts from the last result);
+//	(e) the model handed to hooks is A.
+//
 // Roles are read off Step (not off the field names); the rule covers all estimator types that have these methods.
 func checkEmWiring(c *core.Ctx) {
 	c.Rule("C16.R5", "EM wiring of the mixture/HMM estimators: Step(A <- B), EvaluateLogPdf on B, Emissions job c uses estimators[c], gamma[c], B.Edist[c] -> A.Edist[c], Swap turns the last A into the next B, hooks see A", 20)
